@@ -5,7 +5,7 @@ CAND = "/verif/work/cand"; RES = "/verif/work/seed_results"; OUT = "/verif/seede
 props = {json.loads(l)["id"]: json.loads(l) for l in open("/verif/properties.jsonl")}
 rows = []
 for p in sorted(os.listdir(CAND)):
-    for k in (1, 2, 3, 4, 5, 6):
+    for k in (1, 2, 3, 4, 5, 6, 7, 8, 9):
         if not os.path.exists(f"{CAND}/{p}/m{k}.diff"):
             continue
         sid = f"{p}-m{k}"
